@@ -90,6 +90,9 @@ def gen_op(rng, w, live):
         ext = rng.choice([0, 1])
         beh = rng.choice(['honest', 'honest', 'error', 'other-root'])
         return ('verify', i, pol, doc, lvl, pub, ext, beh)
+    if k < 0.63:
+        # KSI_Signature_verifyWithPolicy through ONE caller-owned verification context that is kept for the whole history
+        return ('verify_wp', i, rng.choice(['internal', 'internal', 'general', 'key']), rng.choice(['none', 'none', 'match', 'flip', 'otheralg']), rng.choice([0, 0, 2, 9]))
     if k < 0.65:
         # a predefined policy cloned and given a fallback policy (KSI_Policy_clone + KSI_Policy_setFallback)
         pol = 'fb:%s:%s' % (rng.choice(['key', 'userpub', 'calendar', 'pubfile', 'general', 'internal']), rng.choice(['internal', 'internal', 'key', 'calendar', 'general']))
@@ -199,6 +202,22 @@ class Hist:
             self.r.count('verifications')
             if got != fresh:
                 self.viol('verdict-differs-from-fresh-context:%s' % ('user-defined-policy' if pol.startswith('rules:') else 'policy-with-fallback' if pol.startswith('fb:') else pol), 'verification %s gives %s on the shared context and %s on a fresh context' % (cmd[:90], got, fresh))
+        elif kind == 'verify_wp':
+            _, slot, pol, doc, lvl = op
+            raw, si = self.live[slot]
+            base = self.verify_cmd(slot, si, pol, doc, lvl, 'none', 0)
+            q = c(base + ' api=withpolicy uservc=1')
+            c('ctx 1')
+            c('set_ext 1 ksi+http://e.example/x anon anon')
+            c('sigparse 1 9 empty ' + raw.hex())
+            q2 = c(self.verify_cmd(9, si, pol, doc, lvl, 'none', 0, ctxn=1) + ' api=withpolicy uservc=1')
+            c('sigfree 9')
+            c('ctxfree 1')
+            self.r.count('verifications_through_kept_caller_context')
+            if q.rc != q2.rc:
+                self.viol('verdict-differs-from-fresh-context:verifyWithPolicy-kept-context', 'KSI_Signature_verifyWithPolicy through the caller context kept since the start of the history gives rc=%#x, with fresh contexts rc=%#x (%s)' % (q.rc, q2.rc, base[:80]))
+            if q.get('vcdirty'):
+                self.r.count('caller_context_modified')
         elif kind == 'serialize':
             pass
         elif kind == 'extend':
